@@ -37,13 +37,17 @@ def find_peaks(data, min_peak_distance, min_peak_height):
 @_nb.njit()
 def _find_peaks_numba_core(data, maximas, min_peak_distance):
     for i in range(len(maximas)):
-        p = i
-        while p < (len(maximas) - 1) and abs(maximas[i] - maximas[p + 1]) < min_peak_distance:
-            p += 1
+        if maximas[i] < 0:
+            continue
+        for p in range(i + 1, len(maximas)):
+            if maximas[p] < 0:
+                continue
+            if maximas[p] - maximas[i] >= min_peak_distance:
+                break
             if data[maximas[i]] < data[maximas[p]]:
                 maximas[i] = -1
-            else:
-                maximas[p] = -1
+                break
+            maximas[p] = -1
     return maximas[maximas > -1]
 
 
